@@ -17,6 +17,7 @@ import (
 	acpIdentity "github.com/sourcenetwork/defradb/acp/identity"
 	"github.com/sourcenetwork/defradb/client"
 	"github.com/sourcenetwork/defradb/crypto"
+	"github.com/sourcenetwork/defradb/event"
 	"github.com/sourcenetwork/defradb/internal/db"
 	netConfig "github.com/sourcenetwork/defradb/net/config"
 	"github.com/sourcenetwork/defradb/node"
@@ -267,6 +268,16 @@ type world struct {
 	wantSnap bool
 
 	p2p *p2pWorld
+
+	// inbound merges (core mode): a source node that mirrors the schema history and whose commits are
+	// delivered to R and T the way the network layer does (block closure, then the merge of the head)
+	src        *hx.Node
+	srcTap     *hx.EventTap
+	srcLog     []func(n *hx.Node) error
+	srcDocs    map[string][]string
+	createQ    map[string]string // docID -> mutation that created it locally
+	merged     map[string]bool   // collection -> an inbound merge was applied in it
+	ixAfterMrg map[string]bool   // collection -> an index was created or dropped after an inbound merge
 }
 
 type snap struct {
@@ -284,7 +295,7 @@ func edKey(seed byte) []byte {
 
 func run(c Case) (fail *hx.Failure, info *Info) {
 	info = &Info{Flags: map[string]bool{}, Count: map[string]int{}}
-	w := &world{c: c, mode: c.Mode, info: info, docs: map[string][]string{}, owner: map[string]int{}, rolled: map[string]bool{}, versions: map[string][]string{}, sinceStart: map[string]bool{}}
+	w := &world{c: c, mode: c.Mode, info: info, docs: map[string][]string{}, srcDocs: map[string][]string{}, createQ: map[string]string{}, merged: map[string]bool{}, ixAfterMrg: map[string]bool{}, owner: map[string]int{}, rolled: map[string]bool{}, versions: map[string][]string{}, sinceStart: map[string]bool{}}
 	if w.mode != "core" && w.mode != "acp" && w.mode != "p2p" {
 		hx.Harnessf("unknown mode %q", c.Mode)
 	}
@@ -316,6 +327,45 @@ func (w *world) closeAll() {
 	if w.p2p != nil {
 		w.p2p.close()
 	}
+	if w.src != nil {
+		w.srcTap.Close()
+		w.src.Close()
+	}
+}
+
+// mirror applies a schema operation that succeeded on R and T to the nodes that share their schema
+// history: the replicator targets (p2p mode) and the source of inbound merges (core mode).
+func (w *world) mirror(g func(n *hx.Node) error) {
+	if w.p2p != nil {
+		w.p2p.mirror(g)
+	}
+	if w.mode == "core" {
+		w.srcLog = append(w.srcLog, g)
+		if w.src != nil {
+			if err := g(w.src); err != nil {
+				hx.Harnessf("source node rejects a mirrored schema operation: %v", err)
+			}
+		}
+	}
+}
+
+// source returns the node whose commits are delivered to R and T, booting it on first use.
+func (w *world) source() *hx.Node {
+	if w.src != nil {
+		return w.src
+	}
+	n, err := hx.NewNode(node.WithBadgerInMemory(true), node.WithDisableAPI(true), node.WithDisableP2P(true),
+		node.WithDocumentACPType(node.NoDocumentACPType), db.WithEnabledSigning(false))
+	if err != nil {
+		hx.Harnessf("cannot boot the source node: %v", err)
+	}
+	for _, f := range w.srcLog {
+		if err := f(n); err != nil {
+			hx.Harnessf("source node rejects a mirrored schema operation: %v", err)
+		}
+	}
+	w.src, w.srcTap = n, hx.NewEventTap(n)
+	return n
 }
 
 func (w *world) boot() {
@@ -596,6 +646,11 @@ func (w *world) apply(o Op) *hx.Failure {
 		return w.crashAfter(o, w.opUpdate(o))
 	case opDelete:
 		return w.crashAfter(o, w.opDelete(o))
+	case opInbound:
+		if w.mode != "core" {
+			return nil
+		}
+		return w.crashAfter(o, w.opInbound(o))
 	case opAddRel, opDelRel:
 		if w.mode != "acp" {
 			return nil
@@ -696,8 +751,8 @@ func (w *world) opAddSchema(o Op) *hx.Failure {
 		for _, name := range names {
 			w.noteVersions(name)
 		}
-		if w.p2p != nil {
-			w.p2p.mirror(func(n *hx.Node) error { _, err := n.DB.AddSchema(n.Ctx, sdl); return err })
+		{
+			w.mirror(func(n *hx.Node) error { _, err := n.DB.AddSchema(n.Ctx, sdl); return err })
 		}
 	} else if isErr(rt) {
 		w.info.flag("op:addschema-rejected")
@@ -752,8 +807,8 @@ func (w *world) opPatch(o Op) *hx.Failure {
 		if !o.B {
 			w.info.flag("op:patch-not-default")
 		}
-		if w.p2p != nil {
-			w.p2p.mirror(func(n *hx.Node) error {
+		{
+			w.mirror(func(n *hx.Node) error {
 				return n.DB.PatchSchema(n.Ctx, patch, immutable.None[model.Lens](), o.B)
 			})
 		}
@@ -800,8 +855,8 @@ func (w *world) opSetActive(o Op) *hx.Failure {
 		if len(vs) > 1 {
 			w.info.flag("op:setactive-among-several-versions")
 		}
-		if w.p2p != nil {
-			w.p2p.mirror(func(n *hx.Node) error { return n.DB.SetActiveSchemaVersion(n.Ctx, id) })
+		{
+			w.mirror(func(n *hx.Node) error { return n.DB.SetActiveSchemaVersion(n.Ctx, id) })
 		}
 	}
 	return nil
@@ -868,6 +923,9 @@ func (w *world) opCreateIndex(o Op) *hx.Failure {
 		w.changed("index")
 		w.allocated("index")
 		w.info.flag("op:createindex-ok")
+		if w.merged[name] {
+			w.ixAfterMrg[name] = true
+		}
 		if len(req.Fields) > 1 {
 			w.info.flag("op:createindex-composite")
 		}
@@ -914,6 +972,9 @@ func (w *world) opDropIndex(o Op) *hx.Failure {
 	if took(o, rt) {
 		w.changed("index")
 		w.info.flag("op:dropindex-ok")
+		if w.merged[name] {
+			w.ixAfterMrg[name] = true
+		}
 	}
 	return nil
 }
@@ -964,8 +1025,8 @@ func (w *world) opAddView(o Op) *hx.Failure {
 		if o.B {
 			w.info.flag("op:addview-materialized")
 		}
-		if w.p2p != nil {
-			w.p2p.mirror(func(n *hx.Node) error {
+		{
+			w.mirror(func(n *hx.Node) error {
 				_, err := n.DB.AddView(n.Ctx, query, sdl, immutable.None[model.Lens]())
 				return err
 			})
@@ -1012,8 +1073,8 @@ func (w *world) opPatchCol(o Op) *hx.Failure {
 		if !o.B {
 			w.info.flag("op:patchcol-deactivate")
 		}
-		if w.p2p != nil {
-			w.p2p.mirror(func(n *hx.Node) error { return n.DB.PatchCollection(n.Ctx, patch) })
+		{
+			w.mirror(func(n *hx.Node) error { return n.DB.PatchCollection(n.Ctx, patch) })
 		}
 	}
 	return nil
@@ -1085,6 +1146,7 @@ func (w *world) opCreate(o Op) *hx.Failure {
 		w.docs[name] = append(w.docs[name], ids...)
 		for _, id := range ids {
 			w.owner[id] = who
+			w.createQ[id] = q
 			if w.p2p != nil {
 				w.p2p.notePublish(name, id)
 				if o.K == opCreateP2PDoc {
@@ -1174,6 +1236,128 @@ func (w *world) opDelete(o Op) *hx.Failure {
 			w.p2p.notePublish(name, id)
 		}
 	}
+	return nil
+}
+
+// opInbound lets the source node commit (create a document, re-create one that R and T created themselves,
+// update or delete one of its documents) and delivers every resulting commit to R and T: the block closure is
+// copied into the node's blockstore and the head is merged, which is what the network layer does with a pushed log.
+func (w *world) opInbound(o Op) *hx.Failure {
+	name, ok := w.pickCol(o.C)
+	if !ok {
+		return nil
+	}
+	def, ok := w.defOf(name)
+	if !ok {
+		return nil
+	}
+	s := w.source()
+	sub := mod(o.X, 6)
+	mine := w.srcDocs[name]
+	var q, what string
+	switch {
+	case sub == 2 && len(w.docs[name]) > 0 && w.createQ[w.docs[name][mod(o.D, len(w.docs[name]))]] != "":
+		q, what = w.createQ[w.docs[name][mod(o.D, len(w.docs[name]))]], "adopt"
+	case sub <= 2 || len(mine) == 0:
+		var parts []string
+		for k, f := range def.GetFields() {
+			if f.Kind.IsObject() || f.Name == "_docID" {
+				continue
+			}
+			if (o.V>>uint(k%6))&1 == 0 && k%3 != o.V%3 {
+				continue
+			}
+			lit, ok := w.literal(f, o.V+3*k+1, o.D)
+			if !ok {
+				continue
+			}
+			parts = append(parts, f.Name+": "+lit)
+		}
+		q, what = fmt.Sprintf("mutation { create_%s(input: {%s}) { _docID } }", name, strings.Join(parts, ", ")), "create"
+	case sub <= 4:
+		var fs []client.FieldDefinition
+		for _, f := range def.GetFields() {
+			if !f.Kind.IsObject() && f.Name != "_docID" {
+				fs = append(fs, f)
+			}
+		}
+		if len(fs) == 0 {
+			return nil
+		}
+		fld := fs[mod(o.F, len(fs))]
+		lit, ok := w.literal(fld, o.V, o.V)
+		if !ok {
+			return nil
+		}
+		q, what = fmt.Sprintf("mutation { update_%s(docID: %q, input: {%s: %s}) { _docID } }", name, mine[mod(o.D, len(mine))], fld.Name, lit), "update"
+	default:
+		q, what = fmt.Sprintf("mutation { delete_%s(docID: %q) { _docID } }", name, mine[mod(o.D, len(mine))]), "delete"
+	}
+	w.srcTap.Take()
+	res := hx.ExecOn(s.Ctx, s.DB, q)
+	if !res.OK() {
+		// the source's own refusal (a document it already has, a deleted document) says nothing about R and T
+		w.info.flag("inbound:source-refused")
+		return nil
+	}
+	for _, row := range res.Rows(strings.SplitN(strings.TrimPrefix(q, "mutation { "), "(", 2)[0]) {
+		if id, ok := row["_docID"].(string); ok && what != "update" && what != "delete" {
+			known := false
+			for _, x := range w.srcDocs[name] {
+				known = known || x == id
+			}
+			if !known {
+				w.srcDocs[name] = append(w.srcDocs[name], id)
+			}
+		}
+	}
+	ups := w.srcTap.Take()
+	if len(ups) == 0 {
+		w.info.flag("inbound:no-commit")
+		return nil
+	}
+	var snaps []snap
+	for _, u := range ups {
+		u := u
+		rt, f := w.both(o.K, fmt.Sprintf("%s %s: merge %s of %q (collection %s)", what, trimTo(q, 200), u.Cid, u.DocID, u.CollectionID), func(n *hx.Node, _ bool) string {
+			if _, err := hx.CopyClosure(n.Ctx, s, n, u.Cid); err != nil {
+				hx.Harnessf("copy closure: %v", err)
+			}
+			return errText(n.DB.VerifMerge(n.Ctx, event.Merge{DocID: u.DocID, Cid: u.Cid, CollectionID: u.CollectionID}))
+		})
+		snaps = append(snaps, w.snaps...)
+		if f != nil {
+			return f
+		}
+		if isErr(rt) {
+			w.info.flag("inbound:merge-refused")
+			continue
+		}
+		w.info.flag("inbound:merge-ok")
+		w.info.flag("inbound:" + what + "-merged")
+		w.info.add("inbound-merges", 1)
+		w.changed("docs")
+		if u.DocID == "" {
+			w.info.flag("inbound:collection-level-commit-merged")
+			continue
+		}
+		if w.afterRst {
+			w.info.flag("inbound:merge-after-restart")
+		}
+		if w.ixAfterMrg[name] {
+			w.info.flag("inbound:merge-index-change-merge")
+		}
+		w.merged[name] = true
+		known := false
+		for _, x := range w.docs[name] {
+			known = known || x == u.DocID
+		}
+		if !known {
+			w.docs[name] = append(w.docs[name], u.DocID)
+		}
+	}
+	// the crash points of this operation are the storage commits of all its merges
+	w.snaps = snaps
 	return nil
 }
 
